@@ -834,6 +834,11 @@ fn c11(quick: bool) -> Vec<Harness> {
         v.push(th_harness("C11", c11(C11Cfg { mode, polls: vec![Some(0), None, None], wakers: 1, wakes_each: 1, sq: 2, sq_full: false, pre_posted: vec![1] }, pb)));
     }
     {
+        let cases = crate::c11seq::cases();
+        let n = cases.len();
+        v.push(crate::casex::case_harness("wake-before-poll", "C11", cases, crate::c11seq::run, json!({"engine": "casex over simk", "cases": n, "alphabet": "ring mode {default, kernel thread, single issuer, +defer taskrun} x timeout of the next poll {None, 0, 1 ms, 5 s, huge} x wakes {1,2} x earlier polls {0,1} x wake through {the ring's handle, a clone}: the poll that follows a wake made while nobody polls must not wait in the kernel"})));
+    }
+    {
         // wake() racing with the Ring being dropped on another thread ("harmless").
         use crate::thworld::{C12Act, C12ThCfg, c12_threads};
         for (acts, ring_polls, sq, sqpoll) in [(vec![C12Act::Wake], 0usize, 2u32, false), (vec![C12Act::Wake, C12Act::Wake], 1, 1, false), (vec![C12Act::Wake], 0, 2, true)] {
